@@ -1442,10 +1442,11 @@ static int sp_dgemm(char tA, char tB, number alpha, void *a, void *b,
       return -1;
     }
 
-    int j, l;
+    int j, l, p;
     for (j=0; j<n; j++)
       colptr_new[j+1] = colptr_new[j] +
-      MAX(((B->colptr[j+1]-B->colptr[j])>0)*m, C->colptr[j+1]-C->colptr[j]);
+      MAX(((B->colptr[j+1]-B->colptr[j])>0)*m,
+          (beta.d != 0.0 ? C->colptr[j+1]-C->colptr[j] : 0));
 
     int_t nnz = colptr_new[n];
     ccs *Z = alloc_ccs(m, n, nnz, C->id);
@@ -1463,11 +1464,11 @@ static int sp_dgemm(char tA, char tB, number alpha, void *a, void *b,
         for (l=0; l<m; l++)
           Z->rowind[Z->colptr[j]+l] = l;
 
-      for (k=B->colptr[j]; k<B->colptr[j+1]; k++) {
+      for (p=B->colptr[j]; p<B->colptr[j+1]; p++) {
 
-        double a_ = alpha.d*((double *)B->values)[k];
+        double a_ = alpha.d*((double *)B->values)[p];
         axpy[DOUBLE](&m, &a_, A +
-            (tA=='N' ? B->rowind[k]*m : B->rowind[k]),
+            (tA=='N' ? B->rowind[p]*m : B->rowind[p]),
             (tA=='N' ? &intOne : &k),
             (double *)Z->values + Z->colptr[j], &intOne);
       }
@@ -1477,6 +1478,7 @@ static int sp_dgemm(char tA, char tB, number alpha, void *a, void *b,
           for (l=C->colptr[j]; l<C->colptr[j+1]; l++) {
             ((double *)Z->values)[Z->colptr[j]+C->rowind[l]] +=
                 beta.d*((double *)C->values)[l];
+            Z->rowind[Z->colptr[j]+C->rowind[l]] = C->rowind[l];
           }
         }
         else {
@@ -1897,9 +1899,15 @@ static int sp_zgemm(char tA, char tB, number alpha, void *a, void *b,
     }
 
     int i, j, l;
+#ifndef _MSC_VER
+    int beta_nz = (beta.z != 0.0);
+#else
+    int beta_nz = (creal(beta.z) != 0.0 || cimag(beta.z) != 0.0);
+#endif
     for (j=0; j<n; j++)
       colptr_new[j+1] = colptr_new[j] +
-      MAX(((B->colptr[j+1]-B->colptr[j])>0)*m, C->colptr[j+1]-C->colptr[j]);
+      MAX(((B->colptr[j+1]-B->colptr[j])>0)*m,
+          (beta_nz ? C->colptr[j+1]-C->colptr[j] : 0));
 
     int_t nnz = colptr_new[n];
     ccs *Z = alloc_ccs(m, n, nnz, C->id);
@@ -1949,6 +1957,7 @@ static int sp_zgemm(char tA, char tB, number alpha, void *a, void *b,
 	    tmp = _Cmulcc(beta.z, ((_Dcomplex *)C->values)[l]);
             ((_Dcomplex *)Z->values)[Z->colptr[j]+C->rowind[l]] = _Cbuild(creal(tmp)+creal(((_Dcomplex *)Z->values)[Z->colptr[j]+C->rowind[l]]),cimag(tmp)+cimag(((_Dcomplex *)Z->values)[Z->colptr[j]+C->rowind[l]]));
 #endif
+            Z->rowind[Z->colptr[j]+C->rowind[l]] = C->rowind[l];
           }
         }
         else {
